@@ -9,20 +9,23 @@ GB = os.path.join(HERE, "bin", "gbcheck")
 REPO = "/repo"
 
 def run(m):
-    path = os.path.join(REPO, m["file"])
-    try:
-        src = open(path).read()
-    except OSError:
-        return m, "SKIP", "file missing"
-    edits = m.get("edits") or [{"old": m["old"], "new": m["new"]}]
-    for e in edits:
-        if src.count(e["old"]) != 1:
-            return m, "SKIP", "anchor text occurs %d times" % src.count(e["old"])
-        src = src.replace(e["old"], e["new"])
+    overlay = {}
+    files = m.get("files") or [{"file": m["file"], "edits": m.get("edits") or [{"old": m["old"], "new": m["new"]}]}]
+    for fe in files:
+        path = os.path.join(REPO, fe["file"])
+        try:
+            src = open(path).read()
+        except OSError:
+            return m, "SKIP", "file missing"
+        for e in fe["edits"]:
+            if src.count(e["old"]) != 1:
+                return m, "SKIP", "anchor text occurs %d times in %s" % (src.count(e["old"]), fe["file"])
+            src = src.replace(e["old"], e["new"])
+        overlay[path] = src
     d = tempfile.mkdtemp(prefix="gbself_")
     try:
         ov = os.path.join(d, "overlay.json")
-        json.dump({path: src}, open(ov, "w"))
+        json.dump(overlay, open(ov, "w"))
         shutil.copy(os.path.join(HERE, "known_findings.txt"), d)
         p = subprocess.run([GB, "-property", m["property"], "-overlay", ov, "-verif", d],
                            capture_output=True, text=True, timeout=600)
